@@ -15,9 +15,9 @@ GlobalSettingNames == {"ignore_errors", "args_override_self", "dont_delimit_trai
 
 NoInherit == [gs |-> [n \in GlobalSettingNames |-> FALSE], gargs |-> <<>>, version |-> FALSE]
 
-StringVP == [k |-> "string", lo |-> 0, hi |-> 0, pvs |-> <<>>]
-BoolVP == [k |-> "bool", lo |-> 0, hi |-> 0, pvs |-> <<>>]
-CountVP == [k |-> "u8", lo |-> 0, hi |-> 255, pvs |-> <<>>]
+StringVP == [k |-> "string", lo |-> 0, hi |-> 0, pvs |-> <<>>, pv_hide |-> <<>>, pv_help |-> <<>>]
+BoolVP == [k |-> "bool", lo |-> 0, hi |-> 0, pvs |-> <<>>, pv_hide |-> <<>>, pv_help |-> <<>>]
+CountVP == [k |-> "u8", lo |-> 0, hi |-> 255, pvs |-> <<>>, pv_hide |-> <<>>, pv_help |-> <<>>]
 
 \* ---- Arg::_build --------------------------------------------------------
 IsPositionalDef(a) == a.short = <<>> /\ a.long = <<>>
@@ -57,14 +57,16 @@ BuildArg(a) ==
       requires |-> [i \in 1..Len(a.requires) |-> [eq |-> FALSE, val |-> <<>>, id |-> a.requires[i]]]
                    \o [i \in 1..Len(a.requires_ifs) |-> [eq |-> TRUE, val |-> a.requires_ifs[i].val, id |-> a.requires_ifs[i].id]],
       r_ifs |-> a.req_if_eq, r_ifs_all |-> a.req_if_eq_all, r_unless |-> a.req_unless, r_unless_all |-> a.req_unless_all,
-      ignore_case |-> a.ignore_case, vp |-> vp, hide |-> a.hide]
+      ignore_case |-> a.ignore_case, vp |-> vp, hide |-> a.hide,
+      hide_short |-> a.hide_short, hide_long |-> a.hide_long, nlh |-> a.nlh, help |-> a.help, hide_pv |-> a.hide_pv]
 
 HelpArg == [id |-> "help", idb |-> <<104,101,108,112>>, short |-> <<104>>, long |-> <<104,101,108,112>>, aliases |-> <<>>, positional |-> FALSE,
             idx |-> 0, action |-> "Help", nmin |-> 0, nmax |-> 0, required |-> FALSE, global |-> FALSE, last |-> FALSE,
             tva |-> FALSE, hyphen |-> FALSE, negnum |-> FALSE, req_eq |-> FALSE, delim |-> 0, term |-> <<>>,
             defaults |-> <<>>, missing |-> <<>>, default_ifs |-> <<>>, has_env |-> FALSE, env |-> <<>>,
             exclusive |-> FALSE, conflicts |-> <<>>, overrides |-> <<>>, requires |-> <<>>, r_ifs |-> <<>>,
-            r_ifs_all |-> <<>>, r_unless |-> <<>>, r_unless_all |-> <<>>, ignore_case |-> FALSE, vp |-> StringVP, hide |-> FALSE]
+            r_ifs_all |-> <<>>, r_unless |-> <<>>, r_unless_all |-> <<>>, ignore_case |-> FALSE, vp |-> StringVP, hide |-> FALSE,
+            hide_short |-> FALSE, hide_long |-> FALSE, nlh |-> FALSE, help |-> <<80,114,105,110,116,32,104,101,108,112>>, hide_pv |-> FALSE]
 VersionArg == [HelpArg EXCEPT !.id = "version", !.idb = <<118,101,114,115,105,111,110>>, !.short = <<86>>, !.long = <<118,101,114,115,105,111,110>>, !.action = "Version"]
 
 \* positional indices: explicit index kept, the others numbered 1.. in definition order (command.rs 4346-4368)
@@ -95,7 +97,7 @@ Build(d, inh) ==
       verArgs == IF S("disable_version_flag") \/ ~hasVersion THEN <<>> ELSE <<VersionArg>>
       args == AssignIdx(own \o inherited \o helpArgs \o verArgs, 1)
   IN [name |-> d.name, aliases |-> d.aliases, short_flag |-> d.short_flag, long_flag |-> d.long_flag,
-      long_flag_aliases |-> d.long_flag_aliases, short_flag_aliases |-> d.short_flag_aliases,
+      long_flag_aliases |-> d.long_flag_aliases, short_flag_aliases |-> d.short_flag_aliases, hide |-> d.hide, about |-> d.about,
       s |-> [n \in DOMAIN d.s |-> S(n)] @@ [eff_disable_help_subcommand |-> disHelpSub],
       gs |-> [n \in GlobalSettingNames |-> S(n)],
       hasVersion |-> hasVersion,
